@@ -29,7 +29,8 @@ RULE = (
     "dividends) executed by the real SEVM, the failing path solved and labelled by the real loop, valid models and unsat verdicts judged "
     "against an independent Yellow-Paper evaluation of the guard; mixed Bool/word bitwise guards `BITOP(cmp(a,c), w(y)) != 0` (AND/OR/XOR of a "
     "comparison result with y, y & mask, y << k, y >> k, both operand orders) judged the same way; multi-path programs `if (x == c) return; assert(x OP y != k)` (EQ / ISZERO, both jump polarities, x and y re-read "
-    "from calldata) whose valid models are executed on the reference EVM (Lean Driver/Evm) as a concrete run of the whole program; the real solve_end_to_end + callback flow with --dump-smt-directory for same-named functions / restarting path ids / a rerun "
+    "from calldata) whose valid models are executed on the reference EVM (Lean Driver/Evm) as a concrete run of the whole program; CODECOPY/EXTCODECOPY across the end of "
+    "concrete code over input-dirtied memory followed by an assertion on the zero-filled part, judged by the same concrete replay; the real solve_end_to_end + callback flow with --dump-smt-directory for same-named functions / restarting path ids / a rerun "
     "into the same directory (every valid model replayed on THIS path's conditions), plus synthetic "
     "outputs (layout/whitespace variants, piped names, short names, duplicates, junk, first-line variants) through the real "
     "from_result / parse_model_str / is_model_valid / _solve_end_to_end_callback vs the Lean model; a case is distinct by its text."
@@ -609,9 +610,69 @@ def correspond(ctx):
                 queue_replay(code, vals.get("p_x", 0), vals.get("p_y", 0),
                              f"{desc} ({sname}): valid counterexample x={vals.get('p_x', 0)}, y={vals.get('p_y', 0)}; path conditions {[str(cn)[:60] for cn in fx.path.conditions]}")
             K.close_function_ctx(gf)
+    # CODECOPY / EXTCODECOPY across the end of fully concrete code over input-dirtied memory: the part past the end of code must be
+    # zero-filled, so `assert(mload(0) == tail ++ zeros)` can never fail; any valid counterexample is replayed on the reference EVM.
+    tail = bytes([0xDE, 0xAD, 0xBE, 0xEF, 0x01, 0x02, 0x03, 0x04])
+    cc_cases = [("CODECOPY", 4, 32, 0), ("CODECOPY", 1, 32, 0), ("CODECOPY", 0, 32, 0), ("CODECOPY", 8, 64, 0), ("CODECOPY", 4, 32, 1), ("EXTCODECOPY", 4, 32, 0),
+                ("CODECOPY", 4, 5, 0)]
+    for ci, (cop, back, length, dirty_y) in enumerate(cc_cases):
+        # mstore(0, x) [; mstore(32, y)]; codecopy(0, codesize - back, length); if (mload(0) != expected) fail
+        body_exp = (tail[len(tail) - back:] if back else b"") + bytes(32)
+        if length < 32:
+            expected = None        # only `length` bytes are overwritten: the rest of the word keeps x -> compare only the copied prefix
+        items = lx + [("push", 0), "MSTORE"]
+        if dirty_y:
+            items += ly + [("push", 32), "MSTORE"]
+        src = [("push", back), "CODESIZE", "SUB"]
+        if cop == "CODECOPY":
+            items += [("push", length)] + src + [("push", 0), "CODECOPY"]
+        else:
+            items += [("push", length)] + src + [("push", 0), "ADDRESS", "EXTCODECOPY"]
+        if length >= 32:
+            items += [("push", 0), "MLOAD", ("push", int.from_bytes(body_exp[:32], "big")), "EQ"]
+        else:   # compare the first `length` bytes only: mload(0) >> (256 - 8*length)
+            items += [("push", 0), "MLOAD", ("push", 256 - 8 * length), "SHR", ("push", int.from_bytes(body_exp[:length], "big")), "EQ"]
+        if dirty_y:
+            items += [("push", 32), "MLOAD", "ISZERO", "AND"] if length >= 64 else []
+        items += [("push", "OK"), "JUMPI", ("push", 0), ("push", 0), "REVERT", ("label", "OK"), "STOP", ("raw", tail)]
+        code = K.asm(items)
+        desc = f"mstore(0,x); {cop.lower()}(0, codesize-{back}, {length}); assert(copied prefix of mload(0) == code tail ++ zeros)"
+        try:
+            exs = eng2.run(code)
+        except Exception as e:
+            ctx.count(f"engine-error:{cop}:{type(e).__name__}")
+            continue
+        failing = [ex for ex in exs if ex.context.output.error is not None]
+        ctx.case(f"codecopy|{desc}|{dirty_y}", nontrivial=True)
+        ctx.count(f"codecopy:{cop}:paths={len(exs)}:failing={len(failing)}")
+        gargs = eng.args(solver_command=z3bin if ci % 2 else f"{yices} --smt2-model-format --bvconst-in-decimal", solver_timeout_assertion=6.0)
+        for fx in failing:
+            gf = K.mk_function_ctx(gargs, "test", "CC")
+            gpc = K.path_ctx(gargs, ci, gf.solving_ctx, fx.path.to_smt2(gargs))
+            gout = solve_end_to_end(gpc)
+            gf.call_sequences[ci] = ""
+            gh = CounterexampleHandler(ctx=gf, is_invariant=False, is_probe=False, flamegraph_enabled=False, potential_flamegraphs={}, submitted_futures=[])
+            gfut = Future()
+            gfut.set_result(gout)
+            with contextlib.redirect_stdout(io.StringIO()), contextlib.redirect_stderr(io.StringIO()):
+                gh._solve_end_to_end_callback(gfut, ex=None, path_ctx=gpc, description=None)
+            gkind = gout.result if isinstance(gout.result, str) else str(gout.result)
+            ctx.count(f"codecopy:{cop}:{gkind}:{'valid' if gf.valid_counterexamples else 'invalid' if gf.invalid_counterexamples else 'none'}")
+            for m in gf.valid_counterexamples:
+                vals = {v.full_name[:3]: v.value for v in m.model.values()}
+                queue_replay(code, vals.get("p_x", 0), vals.get("p_y", 0),
+                             f"{desc}: valid counterexample x={hex(vals.get('p_x', 0))}, y={hex(vals.get('p_y', 0))}")
+            K.close_function_ctx(gf)
+        # the passing side must exist concretely too (sanity of the program itself): x = 1
+        queue_replay(code, 1, 2, "SANITY:" + desc)
+
     if replay_jobs:
         for (scn, inp, desc), res in zip(replay_jobs, evmdiff.run_concrete_batch(ctx, [(a, b) for a, b, _ in replay_jobs])):
             ctx.count(f"concrete-replay:{res.halt}")
+            if desc.startswith("SANITY:"):
+                if res.halt != "success":
+                    raise RuntimeError(f"harness program is wrong: {desc} ends in {res.halt} on the reference EVM")
+                continue
             if res.halt != "revert":
                 ctx.violation("valid-counterexample-does-not-reach-failure[concrete-run-of-program]",
                               f"{desc}: the concrete run of the program on the reference EVM ends in `{res.halt}`, not in the reported failure",
